@@ -9,7 +9,7 @@ rsync -a --delete --exclude target /repo/ $S/repo-$K/
 rsync -a --delete --exclude .cache/runs --exclude seeded /verif/ $S/verif-$K/
 unshare -m bash -c "
   mount --bind $S/repo-$K /repo && mount --bind $S/verif-$K /verif && cd /verif &&
-  git -C /repo apply $PATCH || { echo PATCH-DOES-NOT-APPLY; exit 3; }
+  if [ "$PATCH" != "-" ]; then git -C /repo apply $PATCH || { echo PATCH-DOES-NOT-APPLY; exit 3; }; fi
   ./check $PROP --tier $TIER; rc=\$?
   cp -r /verif/replays $S/logs/$LABEL.$PROP.replays 2>/dev/null
   exit \$rc" > $S/logs/$LABEL.$PROP.log 2>&1
